@@ -21,6 +21,7 @@ import (
 )
 
 type hjRec struct {
+	HexInt bool `json:"hexint"`
 	Op       string   `json:"op"`
 	Text     []string `json:"text"`
 	Skip     int      `json:"skip"`
@@ -166,9 +167,15 @@ func runHexBytes(r *hjRec, variant int, rnd *rand.Rand) (string, *fail) {
 	if err := json.Unmarshal(out, &back); err != nil || !bytes.Equal(back, bs) || (back == nil) != r.Nil {
 		return in, &fail{true, "hexbytes:roundtrip", fmt.Sprintf("HexBytes(%s) -> %s -> %x (nil=%v, %v)", in, out, []byte(back), back == nil, err)}
 	}
+	if !r.Nil && (common.HexBytes(bs).String() != text[1:len(text)-1] || !bytes.Equal(common.HexBytes(bs).Bytes(), bs)) {
+		return in, &fail{true, "hexbytes:string", fmt.Sprintf("HexBytes(%s).String() = %q", in, common.HexBytes(bs).String())}
+	}
 	rawText := "null"
 	if !r.Nil {
 		rawText = `"` + hex.EncodeToString(bs) + `"`
+		if common.RawHexBytes(bs).String() != hex.EncodeToString(bs) || !bytes.Equal(common.RawHexBytes(bs).Bytes(), bs) {
+			return in, &fail{true, "rawhex:string", fmt.Sprintf("RawHexBytes(%s).String() = %q", in, common.RawHexBytes(bs).String())}
+		}
 	}
 	out, err = json.Marshal(common.RawHexBytes(bs))
 	var rback common.RawHexBytes = []byte{1}
@@ -187,6 +194,9 @@ func runHexBytes(r *hjRec, variant int, rnd *rand.Rand) (string, *fail) {
 	if err != nil || string(out) != hashText {
 		return in, &fail{true, "hexhash:marshal", fmt.Sprintf("HexHash(%s) is written as %s, spec says %s", in, out, hashText)}
 	}
+	if `"`+common.HexHash(bs).String()+`"` != hashText {
+		return in, &fail{true, "hexhash:string", fmt.Sprintf("HexHash(%s).String() = %q, JSON form %s", in, common.HexHash(bs).String(), hashText)}
+	}
 	var hback common.HexHash = []byte{1}
 	err = json.Unmarshal(out, &hback)
 	switch r.HashBack {
@@ -204,6 +214,35 @@ func runHexBytes(r *hjRec, variant int, rnd *rand.Rand) (string, *fail) {
 		}
 	}
 	return in, nil
+}
+
+func runHexNull(r *hjRec) (string, *fail) {
+	js := []byte("null")
+	var hb common.HexBytes = []byte{1}
+	var rh common.RawHexBytes = []byte{1}
+	var hh common.HexHash = []byte{1}
+	var b common.HexBool
+	var hi common.HexInt
+	for _, c := range []struct {
+		name string
+		err  error
+		nilv bool
+		want bool
+	}{
+		{"HexBytes", json.Unmarshal(js, &hb), hb == nil, r.HexBytes},
+		{"RawHexBytes", json.Unmarshal(js, &rh), rh == nil, r.RawHex},
+		{"HexHash", json.Unmarshal(js, &hh), hh == nil, r.HexHash},
+		{"HexBool", b.UnmarshalJSON(js), true, r.HexBool},
+		{"HexInt", hi.UnmarshalJSON(js), true, r.HexInt},
+	} {
+		if (c.err == nil) != c.want || (c.want && !c.nilv) {
+			return "null", &fail{true, "null:" + c.name, fmt.Sprintf("%s.UnmarshalJSON(null): err=%v nil=%v, spec accepts=%v", c.name, c.err, c.nilv, c.want)}
+		}
+	}
+	if hb.String() != "null" || rh.String() != "null" || hb.Bytes() != nil || rh.Bytes() != nil || hh.Bytes() != nil {
+		return "null", &fail{true, "null:accessors", "String()/Bytes() of nil byte values"}
+	}
+	return "null", nil
 }
 
 func TestReplayHexJson(t *testing.T) {
@@ -232,6 +271,8 @@ func TestReplayHexJson(t *testing.T) {
 			var f *fail
 			if r.Op == "text" {
 				in, f = runHexText(r, v, rnd)
+			} else if r.Op == "null" {
+				in, f = runHexNull(r)
 			} else {
 				in, f = runHexBytes(r, v, rnd)
 			}
